@@ -2,6 +2,7 @@ package c05
 
 import (
 	"fmt"
+	"strings"
 	"time"
 
 	"github.com/zeromicro/go-zero/core/fx"
@@ -10,169 +11,705 @@ import (
 	"verifsim/simrt"
 )
 
-// Worker pools of mr.MapReduce / MapReduceVoid / ForEach and fx.Stream.Walk / Parallel / Map / Filter:
-// at most `workers` user functions run at any instant (worker-count clause only).
+// Worker pools of mr.MapReduce / MapReduceVoid / ForEach / MapReduceChan / Finish and of the
+// fx.Stream stages Map / Filter / Walk / Parallel.
+//
+// A run is a sequence of 1-4 operations (in some runs spread over two concurrent callers).  An
+// mr operation has one worker stage (the mappers); an fx operation is a pipeline of 1-3 worker
+// stages (Map, Filter, Walk in any order, possibly closed by Parallel) followed by a terminal
+// (Parallel, ForEach, Count, Done, ForAll).  Every stage draws its own worker option
+// {WithWorkers(n>=1), WithWorkers(n<=0), no option, UnlimitedWorkers()} and has its own gauge:
+//   - at most cap(option) user functions of that stage are inside at any instant (nothing is
+//     asserted about the cap of a stage explicitly made unlimited);
+//   - every item that reaches a stage is handed to its user function exactly once, and what the
+//     stage emitted is exactly what the next stage / the terminal / the reducer receives;
+//   - every operation returns.
+// The operations of one run share nothing but the packages themselves, so whatever one operation
+// leaves behind in package state must not change the cap of another one.
 
-func drawItems(t *simrt.Tape, tier string, allowPanic bool) (n int, holds []hold) {
-	n = t.Range(1, maxN(tier))
-	m := t.Range(n+1, 3*n)
-	holds = make([]hold, m)
-	for i := range holds {
-		holds[i] = drawHold(t, allowPanic)
-	}
-	return n, holds
+const (
+	// worker count of mr and fx operations given no option (go-zero's published default), and the
+	// documented minimum a WithWorkers(n) with n < 1 is raised to
+	publishedDefaultWorkers = 16
+	publishedMinWorkers     = 1
+)
+
+const (
+	famMr = iota
+	famFx
+)
+
+const (
+	optWorkers = iota
+	optNone
+	optUnlimited
+)
+
+// wopt is the worker option of one stage.
+type wopt struct {
+	kind int
+	arg  int
 }
 
-func mapReduceRun(r *simrt.Run, tier string) {
-	t := r.Tape
-	variant := t.Intn(3) // 0 MapReduce, 1 MapReduceVoid, 2 ForEach
-	// a mapper panic is only injected into ForEach: what MapReduce does with panics is C10's business
-	allowPanic := t.Chance(1, 2) && variant == 2
-	n, holds := drawItems(t, tier, allowPanic)
-	names := []string{"mr.MapReduce", "mr.MapReduceVoid", "mr.ForEach"}
-	comp := "mapreduce"
-	g := newGauge(r, comp, n)
-	r.Sample(map[string]any{"component": names[variant], "workers": n, "items": len(holds), "panics_enabled": allowPanic, "item_holds": fmt.Sprintf("%v", holds)})
-	if r.Tracing() {
-		r.Logf("%s workers=%d holds=%v", names[variant], n, holds)
+func (o wopt) String() string {
+	switch o.kind {
+	case optNone:
+		return "no option"
+	case optUnlimited:
+		return "UnlimitedWorkers()"
 	}
+	return fmt.Sprintf("WithWorkers(%d)", o.arg)
+}
+
+// limit is the number of workers the option stands for.
+func (o wopt) limit() (n int, capped bool) {
+	switch o.kind {
+	case optNone:
+		return publishedDefaultWorkers, true
+	case optUnlimited:
+		return 0, false
+	}
+	if o.arg < publishedMinWorkers {
+		return publishedMinWorkers, true
+	}
+	return o.arg, true
+}
+
+func (o wopt) fx() []fx.Option {
+	switch o.kind {
+	case optNone:
+		return nil
+	case optUnlimited:
+		return []fx.Option{fx.UnlimitedWorkers()}
+	}
+	return []fx.Option{fx.WithWorkers(o.arg)}
+}
+
+func (o wopt) mr() []mr.Option {
+	if o.kind == optNone {
+		return nil
+	}
+	return []mr.Option{mr.WithWorkers(o.arg)}
+}
+
+// drawOpt: draw 0 is WithWorkers(1); mr has no unlimited mode.
+func drawOpt(t *simrt.Tape, tier string, fam int) wopt {
+	k := t.Intn(8)
+	a := t.Intn(maxN(tier))
+	switch {
+	case k <= 3:
+		return wopt{optWorkers, a + 1}
+	case k == 4:
+		return wopt{optWorkers, -(a % 3)}
+	case k == 5:
+		return wopt{kind: optNone}
+	case fam == famFx:
+		return wopt{kind: optUnlimited}
+	case k == 6:
+		return wopt{optWorkers, a + 1}
+	default:
+		return wopt{kind: optNone}
+	}
+}
+
+// drawCount draws the number of source items so that the first stage is contended.
+func drawCount(t *simrt.Tape, tier string, o wopt) int {
+	n, capped := o.limit()
+	switch {
+	case !capped:
+		return t.Range(2, 2*maxN(tier))
+	case o.kind == optNone:
+		return t.Range(n+1, n+4)
+	default:
+		return t.Range(n+1, 3*n)
+	}
+}
+
+const (
+	stMapper   = iota // mr mapper / ForEach function / Finish function
+	stMap             // fx
+	stFilter          // fx
+	stWalk            // fx
+	stParallel        // fx, closes the pipeline
+)
+
+var stageNames = []string{"mapper", "Map", "Filter", "Walk", "Parallel"}
+
+// wstage is one worker stage: its option, its gauge, and what went in and came out per item id.
+type wstage struct {
+	r     *simrt.Run
+	comp  string
+	name  string
+	kind  int
+	opt   wopt
+	g     *gauge
+	holds []hold
+	fan   []int  // Walk: copies written per item
+	keep  []bool // Filter: verdict per item
+	in    []int  // how often the user function was called with the item
+	out   []int  // how often the item was emitted downstream
+}
+
+func (st *wstage) String() string {
+	s := fmt.Sprintf("%s[%v] holds=%v", stageNames[st.kind], st.opt, st.holds)
+	if st.kind == stWalk {
+		s += fmt.Sprintf(" fan=%v", st.fan)
+	}
+	if st.kind == stFilter {
+		s += fmt.Sprintf(" keep=%v", st.keep)
+	}
+	return s
+}
+
+// newStage draws a stage over the item ids 0..m-1.  mult[id] is how often the item can reach the stage
+// and copies the total number of items a Walk stage may write (fx pipelines only).
+func newStage(r *simrt.Run, tier string, comp, name string, kind int, opt wopt, m int, mult []int, copies int, allowPanic bool) *wstage {
+	t := r.Tape
+	st := &wstage{r: r, comp: comp, name: name, kind: kind, opt: opt, in: make([]int, m), out: make([]int, m)}
+	n, capped := opt.limit()
+	st.g = newGauge(r, comp, n)
+	st.g.nocap = !capped
+	st.holds = make([]hold, m)
+	for i := range st.holds {
+		st.holds[i] = drawHold(t, allowPanic)
+	}
+	switch kind {
+	case stWalk:
+		st.fan = make([]int, m)
+		for i := range st.fan {
+			st.fan[i] = t.Intn(3)
+			for st.fan[i] > 0 && st.fan[i]*mult[i] > copies {
+				st.fan[i]--
+			}
+			copies -= st.fan[i] * mult[i]
+		}
+	case stFilter:
+		st.keep = make([]bool, m)
+		for i := range st.keep {
+			st.keep[i] = !t.Bool()
+		}
+	}
+	return st
+}
+
+func (st *wstage) who(id int) string { return fmt.Sprintf("%s(item %d)", st.name, id) }
+
+// id checks an item handed to a user function (a panic inside fx workers would be swallowed by go-zero).
+func (st *wstage) id(item any) (int, bool) {
+	id, ok := item.(int)
+	if !ok || id < 0 || id >= len(st.in) {
+		st.r.Fail(st.comp+"/unknown-item", "%s was handed %v, which is not an item of its source", st.name, item)
+		return 0, false
+	}
+	return id, true
+}
+
+// region is the guarded region of a stage for one item: counted, inside the gauge, may panic.
+func (st *wstage) region(id int) {
+	st.in[id]++
+	st.g.region(st.who(id), st.holds[id])
+}
+
+func (st *wstage) mapFn(item any) any {
+	id, ok := st.id(item)
+	if !ok {
+		return item
+	}
+	st.region(id)
+	st.out[id]++
+	return item
+}
+
+func (st *wstage) filterFn(item any) bool {
+	id, ok := st.id(item)
+	if !ok {
+		return false
+	}
+	st.region(id)
+	if st.keep[id] {
+		st.out[id]++
+	}
+	return st.keep[id]
+}
+
+func (st *wstage) parallelFn(item any) {
+	if id, ok := st.id(item); ok {
+		st.region(id)
+	}
+}
+
+// walkFn writes its copies from inside the guarded region (a walker blocked on its output keeps its slot).
+func (st *wstage) walkFn(item any, pipe chan<- any) {
+	id, ok := st.id(item)
+	if !ok {
+		return
+	}
+	r := st.r
+	who := st.who(id)
+	st.in[id]++
+	st.g.enter(who)
+	defer st.g.exit(who)
+	h := st.holds[id]
+	for y := 0; y < h.yields; y++ {
+		r.Yield()
+	}
+	for f := 0; f < st.fan[id]; f++ {
+		simrt.Send("walk-out", pipe, any(id))
+		st.out[id]++
+	}
+	if h.dur > 0 {
+		r.Sleep(h.dur)
+	}
+	if h.panics {
+		r.Probe("holder-panicked")
+		panic(holderPanic{who})
+	}
+}
+
+const (
+	mrMapReduce = iota
+	mrMapReduceVoid
+	mrForEach
+	mrMapReduceChan
+	mrFinish
+)
+
+var mrNames = []string{"mr.MapReduce", "mr.MapReduceVoid", "mr.ForEach", "mr.MapReduceChan", "mr.Finish"}
+
+const (
+	tmParallel = iota // the last stage is the terminal
+	tmForEach
+	tmCount
+	tmDone
+	tmForAll
+)
+
+var tmNames = []string{"", "ForEach", "Count", "Done", "ForAll"}
+
+// wop is one operation.
+type wop struct {
+	idx      int
+	fam      int
+	variant  int // mr: which function; fx: which terminal
+	m        int // items of the source, ids 0..m-1, each once
+	fromGen  bool
+	mayAbort bool // a panicking mapper legitimately ends an mr operation early
+	gap      time.Duration
+	stages   []*wstage
+	hasSink  bool
+	sink     []int // per item: how often the reducer / terminal got it
+	count    int   // Count()
+	started  bool
+	returned bool
+	panicked bool
+}
+
+func (o *wop) comp() string {
+	if o.fam == famMr {
+		return "mapreduce"
+	}
+	return "fx"
+}
+
+func (o *wop) title() string {
+	if o.fam == famMr {
+		return mrNames[o.variant]
+	}
+	var b strings.Builder
+	if o.fromGen {
+		b.WriteString("fx.From")
+	} else {
+		b.WriteString("fx.Just")
+	}
+	for _, st := range o.stages {
+		fmt.Fprintf(&b, ".%s[%v]", stageNames[st.kind], st.opt)
+	}
+	if o.variant != tmParallel {
+		b.WriteString("." + tmNames[o.variant])
+	}
+	return b.String()
+}
+
+func (o *wop) describe() string {
+	var b strings.Builder
+	fmt.Fprintf(&b, "op%d %s items=%d", o.idx, o.title(), o.m)
+	if o.fam == famMr && o.variant == mrMapReduceChan {
+		fmt.Fprintf(&b, " source=%s", map[bool]string{false: "pre-filled channel", true: "channel fed by a task"}[o.fromGen])
+	}
+	if o.gap > 0 {
+		fmt.Fprintf(&b, " after %v", o.gap)
+	}
+	for _, st := range o.stages {
+		fmt.Fprintf(&b, "; %v", st)
+	}
+	return b.String()
+}
+
+func drawMrOp(r *simrt.Run, tier string, idx int) *wop {
+	t := r.Tape
+	o := &wop{idx: idx, fam: famMr}
+	o.variant = t.Intn(5)
+	// a mapper panic is only injected into ForEach: what MapReduce does with panics is C10's business
+	allowPanic := t.Chance(1, 2) && o.variant == mrForEach
+	o.mayAbort = allowPanic
+	o.fromGen = t.Bool()
+	opt := drawOpt(t, tier, famMr)
+	o.m = drawCount(t, tier, opt)
+	if o.variant == mrFinish {
+		// Finish runs every function at once: its capacity is the number of functions
+		opt = wopt{optWorkers, o.m}
+	}
+	o.stages = []*wstage{newStage(r, tier, o.comp(), fmt.Sprintf("op%d %s mapper", idx, mrNames[o.variant]), stMapper, opt, o.m, nil, 0, allowPanic)}
+	if o.variant == mrMapReduce || o.variant == mrMapReduceVoid || o.variant == mrMapReduceChan {
+		o.hasSink = true
+		o.sink = make([]int, o.m)
+	}
+	return o
+}
+
+func drawFxOp(r *simrt.Run, tier string, idx int) *wop {
+	t := r.Tape
+	o := &wop{idx: idx, fam: famFx}
+	o.variant = t.Intn(5)
+	inter := t.Intn(3)
+	if o.variant != tmParallel && inter == 0 {
+		inter = 1
+	}
+	o.fromGen = t.Bool()
+	allowPanic := t.Chance(1, 2)
+	kinds := make([]int, 0, inter+1)
+	var mult []int
+	for i := 0; i < inter; i++ {
+		kinds = append(kinds, []int{stWalk, stMap, stFilter}[t.Intn(3)])
+	}
+	if o.variant == tmParallel {
+		kinds = append(kinds, stParallel)
+	}
+	for i, k := range kinds {
+		opt := drawOpt(t, tier, famFx)
+		if i == 0 {
+			o.m = drawCount(t, tier, opt)
+			mult = make([]int, o.m)
+			for id := range mult {
+				mult[id] = 1
+			}
+		}
+		// a Walk may multiply the items, but the flow through a pipeline stays bounded (a run has a step budget)
+		flow := 0
+		for _, c := range mult {
+			flow += c
+		}
+		st := newStage(r, tier, o.comp(), fmt.Sprintf("op%d %s#%d", idx, stageNames[k], i), k, opt, o.m, mult, flow+2*maxN(tier), allowPanic)
+		for id := range mult {
+			switch {
+			case k == stWalk:
+				mult[id] *= st.fan[id]
+			case k == stFilter && !st.keep[id]:
+				mult[id] = 0
+			}
+		}
+		o.stages = append(o.stages, st)
+	}
+	if o.variant == tmForEach || o.variant == tmForAll || o.variant == tmCount {
+		o.hasSink = true
+		o.sink = make([]int, o.m)
+	}
+	return o
+}
+
+func (o *wop) sinkItem(v any) {
+	id, ok := v.(int)
+	if !ok || id < 0 || id >= o.m {
+		o.stages[0].r.Fail(o.comp()+"/unknown-item", "op%d %s: %v came out, which is not an item of the source", o.idx, o.title(), v)
+		return
+	}
+	o.sink[id]++
+}
+
+func (o *wop) runMr(r *simrt.Run) {
+	st := o.stages[0]
 	gen := func(source chan<- int) {
-		for i := range holds {
+		for i := 0; i < o.m; i++ {
 			simrt.Send("generate", source, i)
 		}
 	}
-	mapped := 0
-	mapper := func(item int) {
-		mapped++
-		g.region(fmt.Sprintf("mapper(item %d)", item), holds[item])
+	mapper := func(item int, w mr.Writer[int], cancel func(error)) {
+		st.region(item)
+		st.out[item]++
+		w.Write(item)
 	}
-	var callPanicked bool
-	call := r.Go("caller", func() {
-		callPanicked = guard(func() {
-			switch variant {
-			case 0:
-				mr.MapReduce(gen, func(item int, w mr.Writer[int], cancel func(error)) {
-					mapper(item)
-					w.Write(item)
-				}, func(pipe <-chan int, w mr.Writer[int], cancel func(error)) {
-					sum := 0
-					for {
-						v, ok := simrt.Recv2("reduce", pipe)
-						if !ok {
-							break
-						}
-						sum += v
+	reducer := func(pipe <-chan int, w mr.Writer[int], cancel func(error)) {
+		sum := 0
+		for {
+			v, ok := simrt.Recv2("reduce", pipe)
+			if !ok {
+				break
+			}
+			o.sinkItem(v)
+			sum += v
+		}
+		w.Write(sum)
+	}
+	opts := st.opt.mr()
+	o.panicked = guard(func() {
+		switch o.variant {
+		case mrMapReduce:
+			mr.MapReduce(gen, mapper, reducer, opts...)
+		case mrMapReduceVoid:
+			mr.MapReduceVoid(gen, mapper, func(pipe <-chan int, cancel func(error)) {
+				for {
+					v, ok := simrt.Recv2("reduce", pipe)
+					if !ok {
+						break
 					}
-					w.Write(sum)
-				}, mr.WithWorkers(n))
-			case 1:
-				mr.MapReduceVoid(gen, func(item int, w mr.Writer[int], cancel func(error)) {
-					mapper(item)
-					w.Write(item)
-				}, func(pipe <-chan int, cancel func(error)) {
-					for {
-						if _, ok := simrt.Recv2("reduce", pipe); !ok {
-							break
-						}
-					}
-				}, mr.WithWorkers(n))
-			default:
-				mr.ForEach(gen, func(item int) { mapper(item) }, mr.WithWorkers(n))
+					o.sinkItem(v)
+				}
+			}, opts...)
+		case mrForEach:
+			mr.ForEach(gen, func(item int) { st.region(item) }, opts...)
+		case mrMapReduceChan:
+			var source chan int
+			if o.fromGen {
+				source = make(chan int)
+				r.Go(fmt.Sprintf("op%d-feeder", o.idx), func() {
+					gen(source)
+					simrt.Close("feeder-close", source)
+				})
+			} else {
+				source = make(chan int, o.m)
+				gen(source)
+				simrt.Close("source-close", source)
+			}
+			mr.MapReduceChan(source, mapper, reducer, opts...)
+		default:
+			fns := make([]func() error, o.m)
+			for i := range fns {
+				i := i
+				fns[i] = func() error {
+					st.region(i)
+					return nil
+				}
+			}
+			mr.Finish(fns...)
+		}
+	})
+}
+
+func (o *wop) runFx(r *simrt.Run) {
+	var s fx.Stream
+	if o.fromGen {
+		s = fx.From(func(source chan<- any) {
+			for i := 0; i < o.m; i++ {
+				simrt.Send("generate", source, any(i))
 			}
 		})
-	})
-	if !r.JoinTimeout(joinBudget, call) {
-		r.Fail(comp+"/stuck", "%s did not return although every mapper ends: %v", names[variant], r.AliveTasks())
+	} else {
+		items := make([]any, o.m)
+		for i := range items {
+			items[i] = i
+		}
+		s = fx.Just(items...)
+	}
+	for _, st := range o.stages {
+		switch st.kind {
+		case stMap:
+			s = s.Map(st.mapFn, st.opt.fx()...)
+		case stFilter:
+			s = s.Filter(st.filterFn, st.opt.fx()...)
+		case stWalk:
+			s = s.Walk(st.walkFn, st.opt.fx()...)
+		case stParallel:
+			s.Parallel(st.parallelFn, st.opt.fx()...)
+			return
+		}
+	}
+	switch o.variant {
+	case tmForEach:
+		s.ForEach(func(item any) { o.sinkItem(item) })
+	case tmCount:
+		o.count = s.Count()
+	case tmForAll:
+		s.ForAll(func(pipe <-chan any) {
+			for {
+				v, ok := simrt.Recv2("forall", pipe)
+				if !ok {
+					break
+				}
+				o.sinkItem(v)
+			}
+		})
+	default:
+		s.Done()
+	}
+}
+
+// check runs when the operation has returned and nothing of it is running any more.
+func (o *wop) check(r *simrt.Run) {
+	comp := o.comp()
+	exp := make([]int, o.m)
+	for i := range exp {
+		exp[i] = 1
+	}
+	from := "the source"
+	for _, st := range o.stages {
+		if st.g.in != 0 {
+			r.Fail(comp+"/holder-left", "%s returned, but %d calls of %s never ended", o.title(), st.g.in, st.name)
+			return
+		}
+		for id := range exp {
+			if st.in[id] > exp[id] {
+				r.Fail(comp+"/item-duplicated", "%s: %s was called %d times with item %d, %s delivered it %d times", o.title(), st.name, st.in[id], id, from, exp[id])
+				return
+			}
+			if st.in[id] < exp[id] && !o.mayAbort {
+				r.Fail(comp+"/item-lost", "%s: %s was called %d times with item %d, %s delivered it %d times", o.title(), st.name, st.in[id], id, from, exp[id])
+				return
+			}
+		}
+		exp, from = st.out, st.name
+	}
+	if !o.hasSink || o.mayAbort {
 		return
 	}
-	if callPanicked {
-		r.Probe("call-repanicked")
+	if o.fam == famFx && o.variant == tmCount {
+		want := 0
+		for _, c := range exp {
+			want += c
+		}
+		if o.count != want {
+			r.Fail(comp+"/item-lost", "%s: Count() = %d, but %s emitted %d items", o.title(), o.count, from, want)
+		}
+		return
+	}
+	for id := range exp {
+		if o.sink[id] != exp[id] {
+			cls := "/item-lost"
+			if o.sink[id] > exp[id] {
+				cls = "/item-duplicated"
+			}
+			r.Fail(comp+cls, "%s: item %d arrived %d times at the end of the operation, %s emitted it %d times", o.title(), id, o.sink[id], from, exp[id])
+			return
+		}
+	}
+}
+
+func workersRun(r *simrt.Run, tier string, firstFam int) {
+	t := r.Tape
+	nops := []int{1, 1, 2, 2, 3, 4}[t.Intn(6)]
+	concurrent := t.Chance(1, 3)
+	ops := make([]*wop, nops)
+	for i := range ops {
+		fam := firstFam
+		if i > 0 && t.Intn(4) == 3 {
+			fam = famMr + famFx - firstFam
+		}
+		if fam == famMr {
+			ops[i] = drawMrOp(r, tier, i)
+		} else {
+			ops[i] = drawFxOp(r, tier, i)
+		}
+		if i > 0 {
+			ops[i].gap = drawDur(t)
+		}
+	}
+	callers := 1
+	if concurrent && nops > 1 {
+		callers = 2
+	}
+	descs := make([]string, nops)
+	for i, o := range ops {
+		descs[i] = o.describe()
+		if r.Tracing() {
+			r.Logf("%s", descs[i])
+		}
+	}
+	r.Sample(map[string]any{"component": "worker pools (mr / fx)", "operations": descs, "callers": callers})
+	var tasks []*simrt.Task
+	for k := 0; k < callers; k++ {
+		k := k
+		tasks = append(tasks, r.Go(fmt.Sprintf("caller%d", k), func() {
+			for i := k; i < nops; i += callers {
+				o := ops[i]
+				if o.gap > 0 {
+					r.Sleep(o.gap)
+				}
+				o.started = true
+				if r.Tracing() {
+					r.Logf("caller%d starts op%d %s", k, i, o.title())
+				}
+				if o.fam == famMr {
+					o.runMr(r)
+				} else {
+					o.runFx(r)
+				}
+				o.returned = true
+				if r.Tracing() {
+					r.Logf("caller%d: op%d returned (re-panicked=%v)", k, i, o.panicked)
+				}
+			}
+		}))
+	}
+	if !r.JoinTimeout(joinBudget, tasks...) {
+		for _, o := range ops {
+			if o.started && !o.returned {
+				r.Fail(o.comp()+"/stuck", "%s did not return although every worker function ends (worker slots lost?): %v", o.title(), r.AliveTasks())
+				return
+			}
+		}
+		r.Fail("workers/stuck", "the callers did not finish: %v", r.AliveTasks())
+		return
 	}
 	// let mappers that outlive a panicking call finish
 	r.Sleep(time.Hour)
 	r.Quiesce()
-	if g.peak == n {
-		r.Probe("all-workers-busy")
-	}
-	r.Probe("oracle")
-}
-
-func fxRun(r *simrt.Run, tier string) {
-	t := r.Tape
-	variant := t.Intn(4) // 0 Parallel, 1 Walk, 2 Map, 3 Filter
-	fromGen := t.Bool()
-	allowPanic := t.Chance(1, 2)
-	n, holds := drawItems(t, tier, allowPanic)
-	fan := make([]int, len(holds))
-	for i := range fan {
-		fan[i] = t.Intn(3)
-	}
-	names := []string{"fx.Parallel", "fx.Walk", "fx.Map", "fx.Filter"}
-	comp := "fx"
-	g := newGauge(r, comp, n)
-	r.Sample(map[string]any{"component": names[variant], "workers": n, "items": len(holds), "source_from_generator": fromGen,
-		"panics_enabled": allowPanic, "item_holds": fmt.Sprintf("%v", holds)})
-	if r.Tracing() {
-		r.Logf("%s workers=%d fromGen=%v holds=%v fan=%v", names[variant], n, fromGen, holds, fan)
-	}
-	source := func() fx.Stream {
-		if fromGen {
-			return fx.From(func(source chan<- any) {
-				for i := range holds {
-					simrt.Send("generate", source, any(i))
-				}
-			})
-		}
-		items := make([]any, len(holds))
-		for i := range items {
-			items[i] = i
-		}
-		return fx.Just(items...)
-	}
-	work := func(item any) {
-		i := item.(int)
-		g.region(fmt.Sprintf("worker(item %d)", i), holds[i])
-	}
-	out := 0
-	call := r.Go("caller", func() {
-		switch variant {
-		case 0:
-			source().Parallel(func(item any) { work(item) }, fx.WithWorkers(n))
-		case 1:
-			source().Walk(func(item any, pipe chan<- any) {
-				i := item.(int)
-				who := fmt.Sprintf("walker(item %d)", i)
-				g.enter(who)
-				defer g.exit(who)
-				h := holds[i]
-				for y := 0; y < h.yields; y++ {
-					r.Yield()
-				}
-				for f := 0; f < fan[i]; f++ {
-					simrt.Send("walk-out", pipe, any(i))
-				}
-				if h.dur > 0 {
-					r.Sleep(h.dur)
-				}
-				if h.panics {
-					r.Probe("holder-panicked")
-					panic(holderPanic{who})
-				}
-			}, fx.WithWorkers(n)).ForEach(func(item any) { out++ })
-		case 2:
-			out = source().Map(func(item any) any { work(item); return item }, fx.WithWorkers(n)).Count()
-		default:
-			out = source().Filter(func(item any) bool { work(item); return item.(int)%2 == 0 }, fx.WithWorkers(n)).Count()
-		}
-	})
-	if !r.JoinTimeout(joinBudget, call) {
-		r.Fail(comp+"/stuck", "%s did not finish although every worker function ends (worker slots lost?): %v", names[variant], r.AliveTasks())
+	if r.Failed() {
 		return
 	}
-	r.Sleep(time.Hour)
-	r.Quiesce()
-	if g.peak == n {
-		r.Probe("all-workers-busy")
+	unlimitedSeen := false
+	for _, o := range ops {
+		o.check(r)
+		if r.Failed() {
+			return
+		}
+		if o.panicked {
+			r.Probe("call-repanicked")
+		}
+		if len(o.stages) > 1 {
+			r.Probe("pipeline")
+		}
+		for _, st := range o.stages {
+			n, capped := st.opt.limit()
+			switch {
+			case !capped:
+				r.Probe("unlimited-stage")
+				if st.g.peak > 1 {
+					r.Probe("unlimited-stage-overlap")
+				}
+			case st.opt.kind == optNone:
+				r.Probe("default-workers-stage")
+			case st.opt.arg < publishedMinWorkers:
+				r.Probe("min-workers-stage")
+			}
+			if capped {
+				if unlimitedSeen {
+					r.Probe("capped-after-unlimited")
+				}
+				if st.g.peak == n {
+					r.Probe("all-workers-busy")
+				}
+			}
+		}
+		for _, st := range o.stages {
+			if _, capped := st.opt.limit(); !capped {
+				unlimitedSeen = true
+			}
+		}
+	}
+	if nops > 1 {
+		r.Probe("operation-sequence")
+		if callers > 1 {
+			r.Probe("concurrent-operations")
+		}
 	}
 	r.Probe("oracle")
 }
